@@ -68,6 +68,9 @@ def run(ctx):
         from ..rules import submatch
         ni = submatch.check_pattern_injection(ck, prog, config, 'C05-h')
         ck.min_instances('run-time strings inserted into compiled patterns', ni, 2)
+        # ---- j  the data state never holds an exhausted part (fragment boundary exactly at the end of a part)
+        from ..rules import partstate
+        partstate.check_part_remaining(ck, prog, config, 'C05-j')
         # ---- f multipart data state
         me = prog.need_func('multipart_extract')
 
